@@ -14,7 +14,7 @@ LEVEL = "exploration"
 WORKERS = {"quick": 8, "thorough": 16}
 BUDGET = {"quick": 100, "thorough": 600}
 MIN_NONTRIVIAL = {"quick": 150, "thorough": 3000}
-REQUIRED_HOOKS = ["first-use-schedule", "schedule", "scheduling-point", "switch-inside-library-code", "stress-evaluation", "single-preemption-schedule"]
+REQUIRED_HOOKS = ["first-use-schedule", "double-preemption-schedule", "schedule", "scheduling-point", "switch-inside-library-code", "stress-evaluation", "single-preemption-schedule"]
 RULE = (
     "2-4 threads each create their own Environment and program (runner mixes: all compiled, all interpreted, mixed; different expression texts, or the same text "
     "in every thread) and evaluate their own bindings; every "
@@ -232,6 +232,52 @@ class Explorer:
                 )
         return good
 
+    def double_schedule(self, specs, site1, site2, label, limits, prebuilt):
+        """Thread 0 paused before site1, thread 1 started and paused before site2 (first occurrences), thread 0 finishes, thread 1
+        finishes.  Both sites must be in library code with known code objects."""
+        c1, c2 = self.site_code.get(site1), self.site_code.get(site2)
+        if c1 is None or c2 is None or "<string>" in (site1[0], site2[0]):
+            return True
+        acc = self.acc
+        sinks = [[], []]
+        bls, solos = [], []
+        for j, (runner, prog) in enumerate(specs):
+            bl = bindings_for(prog, j, limits[j])
+            bls.append(bl)
+            key = (runner, prog[0], j, limits[j])
+            if key not in self.solo_cache:
+                self.solo_cache[key] = solo(runner, prog, bl)
+            solos.append(self.solo_cache[key])
+        body_a = thread_work(specs[0][0], specs[0][1], bls[0], sinks[0], prebuilt=prebuilt[0])
+        body_b = thread_work(specs[1][0], specs[1][1], bls[1], sinks[1], prebuilt=prebuilt[1])
+        a_p, b_p, finished = self.s.run_fast2(c1, site1[1], 1, c2, site2[1], 1, body_a, body_b)
+        acc.hook("schedule")
+        acc.hook("double-preemption-schedule")
+        if b_p:
+            acc.hook("both-threads-paused")
+            tkey = f"fast2:{specs[0][0]}{specs[1][0]}:{specs[0][1][0][:40]}:{site1[0]}:{site1[1]}>{site2[0]}:{site2[1]}"
+            if tkey not in self.traces:
+                self.traces.add(tkey)
+                acc.nt([tkey])
+        acc.evaluations += len(sinks[0]) + len(sinks[1])
+        acc.cell("double-preemption", specs[0][0] + specs[1][0], "both-paused" if b_p else ("one-paused" if a_p else "none"), "ok" if finished else "watchdog")
+        if not finished:
+            acc.inconclusive.append(f"a thread did not finish in a double-preemption schedule ({label})")
+            return True
+        good = True
+        for j, (got, want) in enumerate(zip(sinks, solos)):
+            if got != want:
+                good = False
+                k = next((i for i, (g, w) in enumerate(zip(got, want)) if g != w), min(len(got), len(want)))
+                g = got[k] if k < len(got) else ["missing"]
+                w = want[k] if k < len(want) else ["missing"]
+                acc.violation(
+                    f"thread-runner={specs[j][0]} other-runners={specs[1 - j][0]} phase=evaluate obs={diag.oclass(g) if g[0] in 'VEXP' else g[0]} solo={diag.oclass(w) if w[0] in 'VEXP' else w[0]}",
+                    f"[double-preemption {label}] thread {j} ({specs[j][0]}) evaluating {specs[j][1][0]!r}: call {k} returned {core.jkey(g)[:80]} but {core.jkey(w)[:80]} when run alone; thread 0 paused before {site1[0]}:{site1[1]}, thread 1 run up to {site2[0]}:{site2[1]}, thread 0 finished, thread 1 finished",
+                    {"kind": "double-preemption", "specs": [[r, PROGRAMS.index(p) if p in PROGRAMS else -1] for r, p in specs], "label": label},
+                )
+        return good
+
     def count_points(self, runner, prog, limit=None):
         """Number of scheduling points of thread A's solo run."""
         sink = []
@@ -415,7 +461,7 @@ def run(ctx):
     # Slots: every program of the pool is thread A's program once with two compiled and once with two interpreted threads (the
     # shared state of one runner class is reached only when both threads use it); slots beyond two passes over the pool mix runners.
     npairs = 6 if not ctx.thorough else 24
-    budget_each = t_sched * 0.58 / max(1, npairs)
+    budget_each = t_sched * 0.46 / max(1, npairs)
     for pi in range(npairs):
         g = ctx.worker * npairs + pi
         idx = (g + ctx.seed) % len(PROGRAMS)
@@ -464,6 +510,24 @@ def run(ctx):
                 acc.hook("single-preemption-schedule")
                 done[group] += 1
         rare, common = ev_rare + cons, ev_common
+        # two preemptions inside ONE function of the evaluation phase: A paused before line s1, B run up to line s2 of the same
+        # function and paused, A finishes, B finishes (a check-then-act sequence whose two halves are interleaved with the other
+        # thread's halves is not exposed by letting the other thread run to completion)
+        by_code = {}
+        for site in ex.eval_first:
+            cobj = ex.site_code.get(site)
+            if cobj is not None and site[0] != "<string>":
+                by_code.setdefault(id(cobj), []).append(site)
+        pairs2 = []
+        for sites in by_code.values():
+            if 2 <= len(sites) <= 14:
+                pairs2 += [(s1, s2) for s1 in sites for s2 in sites]
+        rnd.shuffle(pairs2)
+        t2 = time.monotonic()
+        for s1, s2 in pairs2:
+            if time.monotonic() - t2 > budget_each * 0.35 or ctx.expired() or pre_a is None:
+                break
+            ex.double_schedule([(ra, pa), (rb, pa)], s1, s2, f"{ra}{rb} {s1[0]}:{s1[1]} / {s2[0]}:{s2[1]}", lim, (pre_a, pre_b if pb is pa else None))
         acc.extra["single_preemption_points_total"] = acc.extra.get("single_preemption_points_total", 0) + n_a
         acc.extra["distinct_sites_in_A"] = acc.extra.get("distinct_sites_in_A", 0) + len(first)
         acc.extra["rare_sites_in_A"] = acc.extra.get("rare_sites_in_A", 0) + len(rare)
